@@ -1152,7 +1152,7 @@ class RotationGate(Gate):
         """
         Create a copy of the gate.
         """
-        return RotationGate(self.ntheta, self.qubit)
+        return RotationGate(np.copy(self.ntheta), self.qubit)
 
     def __eq__(self, other):
         """
@@ -2795,7 +2795,7 @@ class MultiplexedGate(Gate):
         """
         Create a copy of the gate.
         """
-        gate = MultiplexedGate(copy(self.tgates), self.ncontrols)
+        gate = MultiplexedGate([copy(g) for g in self.tgates], self.ncontrols)
         gate.set_control(self.control_qubits)
         return gate
 
@@ -3193,7 +3193,7 @@ class GeneralGate(Gate):
         """
         Create a copy of the gate.
         """
-        gate = GeneralGate(self.mat, self.nwires)
+        gate = GeneralGate(np.copy(self.mat), self.nwires)
         gate.on(self.prtcl)
         return gate
 
